@@ -17,7 +17,7 @@ RULE = ('case = wallet (strategy, fee rate, 3..40 UTXOs, 1-2 accounts) + a round
 ASSUMPTIONS = ['interleavings are produced only at existing suspension points (around AIOSQLite.run); the single sqlite writer thread is real',
                'broadcast is simulated by saving the transaction I/O through the real save_transaction_io (inputs become spent)']
 REQUIRED_HITS = ['D4.failed_after_reserving', 'D1.pairs_checked', 'D2.checked', 'D3.checked', 'D4.failed_builds', 'round.some_failed_some_succeeded',
-                 'resync.during_builds', 'resync.while_held', 'reconnect.while_held', 'build.without_outputs', 'pool.has_barely_spendable_coins', 'phase2.late_build', 'phase3.release', 'phase3.broadcast', 'phase3.build_in_between', 'chaos.points']
+                 'resync.during_builds', 'resync.while_held', 'reconnect.while_held', 'phase3.broadcast_failed.rejected', 'phase3.broadcast_failed.cancelled', 'phase3.broadcast_failed.timed_out', 'build.without_outputs', 'pool.has_barely_spendable_coins', 'phase2.late_build', 'phase3.release', 'phase3.broadcast', 'phase3.build_in_between', 'chaos.points']
 
 
 class InjectedFault(Exception):
@@ -212,10 +212,37 @@ async def _round(rec, case):
                 break
             tx = held.pop(b)
             ins = held_inputs.pop(b)
-            if r.random() < 0.5:
+            x = r.random()
+            if x < 0.35:
                 rec.hit('phase3.release')
                 ev(b, 'release')
                 await ledger.release_tx(tx)
+            elif x < 0.6:
+                # abandoned because its broadcast did not go through: rejected by the server, or the call was cancelled / timed out while
+                # the request was pending (Ledger.broadcast_or_release; seeded break C14-H only released on `Exception`)
+                how = r.choice(['rejected', 'cancelled', 'cancelled', 'timed_out'])
+                rec.hit('phase3.broadcast_failed.' + how)
+                ev(b, 'broadcast-' + how)
+                gate = asyncio.Event()
+
+                async def fake_broadcast(raw_hex, _how=how, _gate=gate):
+                    await asyncio.sleep(0)
+                    if _how == 'rejected':
+                        raise RuntimeError('the server rejected the transaction')
+                    await _gate.wait()          # unresponsive server
+                ledger.network.broadcast = fake_broadcast
+                if how == 'timed_out':
+                    t = asyncio.ensure_future(asyncio.wait_for(ledger.broadcast_or_release(tx), 0.005))
+                else:
+                    t = asyncio.ensure_future(ledger.broadcast_or_release(tx))
+                    if how == 'cancelled':
+                        for _ in range(r.choice([1, 2, 4])):
+                            await asyncio.sleep(0)
+                        t.cancel()
+                res = (await asyncio.gather(t, return_exceptions=True))[0]
+                if not isinstance(res, BaseException):
+                    raise RuntimeError('harness: failed broadcast returned normally')
+                del ledger.network.broadcast
             else:
                 rec.hit('phase3.broadcast')
                 ev(b, 'broadcast')
